@@ -23,6 +23,7 @@ type c08Case struct {
 	App    bool     `json:"app,omitempty"`    // the description is provisioned by PFD Management and the PDR names the application
 	PFDSeq []string `json:"pfdseq,omitempty"` // sequence of PFD requests before the PDR (names of c08PFDReqs)
 	P4     bool     `json:"p4,omitempty"`     // the description is programmed through the UP4 plug-in (applications table)
+	Prev   string   `json:"prev,omitempty"`   // UP4: a second session with this description (another UE) is live at the same time
 }
 
 type c08Env struct {
@@ -148,6 +149,28 @@ func (e *c08Env) checkInline(cs c08Case) {
 			res.finding("c08:filter-differs:"+dir+":"+strings.SplitN(v, " ", 3)[1]+order, fmt.Sprintf("%q on a %s PDR: %s", cs.Desc, dir, v), cs)
 		}
 	}
+}
+
+// c08UP4Grammar: the strings of the form the statement fixes a meaning for ("... from <remote> [ports] to assigned"), with two
+// more port forms right behind "no ports": 1-65535 and 0-65534 (one port short of everything; the BESS plug-in cannot
+// expand ranges that wide and never answers for them in a harness build, so they are UP4's alone)
+func c08UP4Grammar() []string {
+	var out []string
+	remotes := []string{"any", "10.1.2.3", "10.1.2.3/32", "10.1.2.3/31", "10.1.2.0/24", "10.0.0.0/8", "128.0.0.0/1", "0.0.0.0/0"}
+	ports := []string{"", " 1-65535", " 0-65534", " 80", " 80-80", " 1000-1003", " 65535", " 0-65535", " 1", " 65530-65535", " 0-5", " 256", " 512-520"}
+	protos := []string{"ip", "tcp", "udp", "6", "17", "1", "127", "128", "132", "254", "0", "255"}
+	for _, act := range []string{"permit", "deny"} {
+		for _, dir := range []string{"out", "in"} {
+			for _, pr := range protos {
+				for _, r := range remotes {
+					for _, po := range ports {
+						out = append(out, fmt.Sprintf("%s %s %s from %s%s to assigned", act, dir, pr, r, po))
+					}
+				}
+			}
+		}
+	}
+	return out
 }
 
 func c08Grammar(full bool) []string {
@@ -407,16 +430,33 @@ func (e *c08UP4Env) fresh() {
 	e.sys.exec(&sessReq{sReq: sReq{Kind: kAssoc, Conn: 0}})
 }
 
-func (e *c08UP4Env) check(desc string) {
+func (e *c08UP4Env) check(desc, prev string) {
 	res := e.res
 	// (a refused establishment keeps its counter cells - recorded finding of C05 - so the instance is renewed regularly)
 	if e.n%40 == 0 {
 		e.fresh()
 	}
 	e.n++
-	cs := c08Case{Desc: desc, P4: true, UE: "16.0.0.1"}
+	cs := c08Case{Desc: desc, P4: true, UE: "16.0.0.1", Prev: prev}
 	res.journal(cs)
 	res.Evaluations++
+	// the neighbour in the grammar (same remote and protocol, other ports) is live for another UE meanwhile: two filters
+	// that differ in their ports only must not share an applications entry
+	var prevSess *rSess
+	if prev != "" {
+		pp, pf, pq := up4RuleSet("16.0.0.2", 0x200, c04Peers[0], prev, 1, 0)
+		if flt, strict := refPDRFilter(&rPDR{sPDR: sPDR{SDF: prev}}); flt == nil && strict {
+			pp = pp[2:]
+		}
+		if pc := e.sys.exec(&sessReq{sReq: sReq{Kind: kEst, Conn: 0, CPSEID: uint64(100000 + e.n), CreatePDR: pp, CreateFAR: pf, CreateQER: pq}}); pc.pframe == "" && pc.newSess != nil {
+			prevSess = pc.newSess
+		}
+	}
+	defer func() {
+		if prevSess != nil && e.n != 0 {
+			e.sys.exec(&sessReq{sReq: sReq{Kind: kDel, Conn: 0}, Sess: prevSess.Idx})
+		}
+	}()
 	p, f, q := up4RuleSet("16.0.0.1", 0x100, c04Peers[0], desc, 1, 0)
 	flt, strict := refPDRFilter(&rPDR{sPDR: sPDR{SDF: desc}})
 	if flt == nil && strict {
@@ -455,7 +495,7 @@ func TestVerifC08(t *testing.T) {
 	res.Rule = "grammar expanded completely over action {permit,deny} x direction {in,out} x protocol {ip,tcp,udp,6,17,1,127,128,132,254,0,255} x remote {any, host, /32, /31, /24, /8, /1, /0} x port {absent, p, p-p, lo-hi, 65535, 0-65535, 1, 65530-65535, 0-5, 256, 512-520} x both " +
 		"endpoint orders (+ UE-side ports / no assigned side: crash-freedom only), each string inline in a Create PDR for both PDR directions and UE address present/absent; every token-level corruption (delete, duplicate, " +
 		"truncate after, replace by 12 junk tokens) of a stratified subset of descriptions (thorough: of all); every sequence of <= 3 PFD Management requests over {T1, T2, T3, T4 (UE-side ports), T5 (malformed descriptions among well-formed ones), empty, three rejected forms} followed by PDRs naming " +
-		"app1/app2/app3 in both directions for two UE addresses in turn; every 'from <remote> [ports] to assigned' string of the grammar also through the UP4 plug-in (applications / terminations entries compared by C04's image check). distinct_nontrivial = strict grammar cases + PFD cases compared at the fake BESS"
+		"app1/app2/app3 in both directions for two UE addresses in turn; every 'from <remote> [ports] to assigned' string of the grammar also through the UP4 plug-in, next to a live session of another UE that carries the preceding string of the grammar (applications / terminations entries compared by C04's image check). distinct_nontrivial = strict grammar cases + PFD cases compared at the fake BESS"
 	res.Assumptions = []string{"reference denotation of DESIGN.md appendix A.1: the remote endpoint is the one that is not 'assigned'; oriented by the PDR's direction",
 		"ports wider than 100 are left to C17 (the Exact strategy refuses them after acceptance); protocol 0/255, port 0, UE-side ports: generated, crash-freedom only"}
 	e := newC08Env(res)
@@ -473,7 +513,7 @@ func TestVerifC08(t *testing.T) {
 		if cs.P4 {
 			closeBESS() // one instance at a time (the metrics collectors are process-wide)
 			u := &c08UP4Env{res: res}
-			u.check(cs.Desc)
+			u.check(cs.Desc, cs.Prev)
 			u.sys.close()
 			return
 		}
@@ -540,16 +580,16 @@ func TestVerifC08(t *testing.T) {
 	closeBESS() // one instance at a time (the metrics collectors are process-wide)
 	u4 := &c08UP4Env{res: res}
 	nu4 := 0
-	for _, d := range gram {
-		if !strings.HasSuffix(d, " to assigned") || strings.Contains(d, "from assigned") {
-			continue
-		}
+	prevDesc := ""
+	for _, d := range c08UP4Grammar() {
 		item++
 		nu4++
+		pd := prevDesc
+		prevDesc = d
 		if !vMine(item) || res.expired() {
 			continue
 		}
-		u4.check(d)
+		u4.check(d, pd)
 	}
 	if u4.sys != nil {
 		res.Transitions += int64(u4.sys.steps)
